@@ -115,7 +115,8 @@ def gen_clauses(rng, n):
         v = {"cap": rng.choice([0.02, 0.05, 0.5]), "floor": rng.choice([0.01, 0.03, -0.5]),
              "scale": rng.choice([0.5, 2.0, -1.0, 3.0]), "shift": rng.choice([0.25, -0.125, 1.0]),
              "knockout": rng.choice([1.02, 1.05, 1.1]), "square": 0.0}[k]
-        out.append({"name": "cl%d" % i, "kind": k, "v": v})
+        # names are drawn at random so that registration order differs from alphabetical order
+        out.append({"name": "%s%d" % (rng.choice(["zeta", "alpha", "mid", "beta", "omega", "cap", "a"]), i), "kind": k, "v": v})
     return out
 
 
